@@ -902,10 +902,16 @@ class G:
                 self.count("nbr:fixed-run-comb-top")
         # (a4) neighbour queries on RESULTS: unions of run chunks whose runs touch end to start (every form and order), and a range
         #      removal that takes everything the first chunk of the range holds
-        for k in (3, 65535):
+        for k, ytail in ((3, False), (65535, True), (9, False)):
             xr, yr = self.fresh("nb"), self.fresh("nb")
-            self.emit("new %s" % xr); self.emit("addr %s %d %d" % (xr, k * CH, k * CH + 300)); self.emit("addr %s %d %d" % (xr, k * CH + 600, k * CH + 900)); self.emit("opt %s" % xr)
-            self.emit("new %s" % yr); self.emit("addr %s %d %d" % (yr, k * CH + 250, k * CH + 600)); self.emit("addr %s %d %d" % (yr, k * CH + 2000, k * CH + 2600)); self.emit("opt %s" % yr)
+            self.emit("new %s" % xr); self.emit("addr %s %d %d" % (xr, k * CH, k * CH + 300)); self.emit("addr %s %d %d" % (xr, k * CH + 600, k * CH + 900))
+            if k == 9:
+                self.emit("addr %s %d %d" % (xr, k * CH + 2600, k * CH + 2700))
+            self.emit("opt %s" % xr)
+            self.emit("new %s" % yr); self.emit("addr %s %d %d" % (yr, k * CH + 250, k * CH + 600))
+            if ytail or k == 9:
+                self.emit("addr %s %d %d" % (yr, k * CH + 2000, k * CH + 2600))
+            self.emit("opt %s" % yr)
             for form in ("or-xy", "or-yx", "ior-x", "ior-y", "fastor-yx", "paror-yx"):
                 z = self.fresh("nb")
                 if form == "or-xy":
